@@ -327,6 +327,7 @@ pub fn c01_families(tier: &str) -> Vec<SeqSpec> {
     ab.extend(reopen_ops(2));
     v.push(spec("F-bytes", &["M2b", "T300n"], k5(), ab, if t { 3 } else { 2 }, READS));
     v.push(trivial_move_family(t, READS));
+    v.push(rich_family("F-rich/T300", k3s(), a1(), if t { 6 } else { 4 }, READS));
     v
 }
 
@@ -418,6 +419,7 @@ pub fn c07(tier: &str) -> ! {
         Op::Compact(None, None),
     ];
     fams.push(spec("C07-seek/T300", &["T300"], k4(), a_seek, if t { 7 } else { 5 }, ck).flush());
+    fams.push(rich_family("C07-rich/T300", k3(), a_c07_small(), if t { 5 } else { 3 }, ck));
     if t {
         fams.push(spec("C07-full/T300", &["T300"], k3(), a_c07_full(), 4, ck).flush());
         fams.push(spec("C07-ranged/T1", &["T1"], k3(), a_c07_small(), 5, ck).flush());
@@ -463,6 +465,7 @@ pub fn c03_seq_families(tier: &str) -> Vec<SeqSpec> {
     fams.push(spec("C03-small/T300", &["T300"], k2(), a_c03_small(), if t { 8 } else { 6 }, ck).flush());
     fams.push(spec("C03-small/M2", &["M2"], k2(), a_c03_small(), if t { 7 } else { 5 }, ck).lazy());
     fams.push(spec("C03-small/R", &["R"], k2(), a_c03_small(), if t { 7 } else { 5 }, ck).lazy());
+    fams.push(rich_family("C03-rich/T300", k3(), a_c03(), if t { 4 } else { 3 }, ck));
     // T1: every table holds one entry, so the versions of one key pinned by snapshots straddle
     // adjacent files of a level
     fams.push(spec("C03-small/T1", &["T1"], k2(), a_c03_small(), if t { 8 } else { 5 }, ck).flush());
@@ -507,6 +510,7 @@ pub fn c11_seq_families(tier: &str) -> Vec<SeqSpec> {
     ];
     fams.push(spec("C11-seek/T300", &["T300"], k4(), a_seek, if t { 7 } else { 5 }, ck).flush());
     fams.push(trivial_move_family(t, ck));
+    fams.push(rich_family("C11-rich/T300", k3(), a_c11(), if t { 4 } else { 3 }, ck));
     fams
 }
 
@@ -771,4 +775,18 @@ pub fn trivial_move_family(thorough: bool, ck: Checks) -> SeqSpec {
     let alphabet = vec![Op::Put(2, 0), Op::Put(3, 0), Op::Put(0, 0), Op::Del(1), Op::Reopen(0), Op::Compact(None, None)];
     spec("trivial-move/T300n", &["T300n"], k4(), alphabet, if thorough { 7 } else { 5 }, ck)
         .with_setup(vec![Op::Put(0, 0), Op::Reopen(0), Op::Put(1, 0), Op::Reopen(0)])
+}
+
+/// A populated LSM to start from (three files in L2, two in L1, two in L0, a tombstone above an
+/// older value, an overwritten key on every level): exploration from a non-initial state.
+pub fn rich_setup() -> Vec<Op> {
+    vec![
+        Op::Put(0, 0), Op::Flush, Op::Put(1, 0), Op::Flush, Op::Put(2, 0), Op::Flush,
+        Op::Put(0, 0), Op::Flush, Op::Batch(vec![(1, true), (2, true)]), Op::Flush,
+        Op::Del(1), Op::Flush, Op::Put(0, 0), Op::Flush,
+    ]
+}
+
+pub fn rich_family(name: &str, keys: Vec<Vec<u8>>, alphabet: Vec<Op>, depth: usize, ck: Checks) -> SeqSpec {
+    spec(name, &["T300"], keys, alphabet, depth, ck).flush().with_setup(rich_setup())
 }
